@@ -330,7 +330,7 @@ def strategies_for(rnd, tier):
     core = [('mergetool', None, None, True), ('inline', None, None, True)]
     if not _OTHERS:
         _OTHERS.extend(k for k in (mergespace.args_key(a) for a in mergespace.sample_args(random.Random(7), 40)) if k not in core)
-    return core + rnd.sample(_OTHERS, 1 if tier == 'quick' else 4)
+    return core + rnd.sample(_OTHERS, 1 if tier == 'quick' else 2)
 
 
 def large_notebooks(variant):
@@ -737,7 +737,7 @@ def _jobs(tier, seed):
         for variant in (['source', 'stream'][k % 2:k % 2 + 1] if q else ['source', 'stream']):
             jobs.append(('large', variant, [[], uc, cw, r, 'ctor' if k % 2 else 'args']))
     base = seed * 7919
-    jobs += [('pairs', base + s, 24 if q else 40, tier) for s in range(32 if q else 48)]
+    jobs += [('pairs', base + s, 24 if q else 32, tier) for s in range(32 if q else 48)]
     jobs += [('triples', base + 500 + s, 10 if q else 14, tier) for s in range(32 if q else 48)]
     jobs += [('cli', base + 900 + s, 6 if q else 20, tier) for s in range(8 if q else 16)]
     return jobs
@@ -784,7 +784,7 @@ def run_bounded(res):
         'a case is distinct by (input, diff or decisions, configuration). oracles: no exception and return within %d s; no ESC with colour off; '
         'nothing printed for []; more than the header printed when a leaf entry of the diff lies in shown categories only (table of checks/c14.category, '
         'entries below /cells/*/outputs additionally need outputs shown)'
-        % ('1' if q else '4', LARGE_LINES, '8 of the 64 (always none and all ignored)' if q else 'all 64',
+        % ('1' if q else '2', LARGE_LINES, '8 of the 64 (always none and all ignored)' if q else 'all 64',
            'git, diff|diff:path, difflib|difflib:path (alternating)' if q else sorted(RENDERERS), HANG_SECONDS))
     res.assumptions += [
         'bounded: only the stated small scope is explored',
